@@ -54,7 +54,8 @@ PROP = dict(
           "end with COLLAPSE_ZERO_LINES (zero background, islands of non-zero bytes at the start, around 2^31 / 2^32 / 2^31+2^32 bytes from the start and before the "
           "end, in the middle and at the very end; 1 dump of 2^31+3 MiB in quick, 7 dumps up to 2^33 bytes in thorough, through the iovec / callback / vector / "
           "print_data entry points): exactly the first line, the last line and the island lines, each decoded and compared; non-trivial = total > 2^31. Distinct = distinct case encodings / fuzz inputs (hash)."),
-    assumptions=["hex-dump callers pass a previous buffer of exactly the data size (the print_data contract)",
+    assumptions=["hex dumps: any ECMA-48 SGR spelling of the highlight (bold and/or a foreground colour; inverse video is tracked separately), blanks that separate or pad cells may be inside or outside the highlighted run; with COLLAPSE_ZERO_LINES an all-zero interior line may be omitted but need not be (kept lines are decoded and compared like any other)",
+                 "hex-dump callers pass a previous buffer of exactly the data size (the print_data contract)",
                  "start + size <= 2^64 (a dump cannot extend beyond the 64-bit address space)",
                  "at most one of the OFFSET_* flags and at most one float-endianness flag per dump",
                  "little-endian host (float columns without an endianness flag are decoded as little-endian)",
